@@ -85,3 +85,17 @@ Proof.
   intros item Hp fuel. apply dns_list_skipping_heads_refuted.
   destruct (item []) as [r|] eqn:E; [|reflexivity]. apply Hp in E. cbn in E. lia.
 Qed.
+
+(** ParsePacket with a wider window for the announced length: a 4-byte prefix makes the reader
+    allocate more than the limit of the model before any data has arrived *)
+Definition packet_prealloc_with (limit : N) (stream : bytes) : N :=
+  if short 4 stream then 4 else
+  let length := le_num (firstn 4 stream) in
+  if (length <? min_packet) || (limit <? length) then 4 else 4 + length.
+
+Lemma packet_prealloc_with_limit s : packet_prealloc_with max_packet s = packet_prealloc s.
+Proof. reflexivity. Qed.
+
+Theorem packet_window_12mib_refuted :
+  exists s, length s = 4%nat /\ 4 + max_packet < packet_prealloc_with (12 * 1048576) s.
+Proof. exists [0; 0; 0xA0; 0]. split; [reflexivity | vm_compute; reflexivity]. Qed.
